@@ -24,6 +24,9 @@ def run(verdict, exe, tier, seed, tag="C05bytes"):
     pairset = '"\\$\'{}#/*\n\r\t ' + ("" if tier == "quick" else "=,()+-0x~")
     strings += [a + b for a in pairset for b in pairset]
     strings += ["a" + a + b + "z" for a in "\r\n\\" for b in "\r\n\\"]
+    strings += ["a" + a + b + c + "z" for a in "\r\n\\" for b in "\r\n\\" for c in "\r\n\\"]
+    # a control character directly in front of a digit or a letter (whatever the printer does with it must read back)
+    strings += [chr(c) + d + " x" for c in list(range(1, 9)) + list(range(14, 32)) + [127] for d in "0789a"]
     for _ in range(n_rand):
         k = rng.randint(1, 8)
         strings.append("".join(rng.choice(special) if rng.random() < 0.6 else chr(rng.randint(1, 255)) for _ in range(k)))
@@ -66,3 +69,47 @@ def run(verdict, exe, tier, seed, tag="C05bytes"):
     verdict.cov["evaluations"] += len(meta)
     verdict.cov["distinct_nontrivial"] += len(meta)
     verdict.sample({"byte_strings": [repr(s) for s in strings[250:262]]})
+    float_sweep(verdict, exe, tag)
+
+
+FLOATS = ["0", "1", "-1", "0.5", "1e-5", "123456.789", "1e15", "1e16", "1e17", "123456789012345678", "5.972e24", "-1e20",
+          "1e100", "1.7976931348623157e308", "-1.7976931348623157e308", "4.9e-324", "1e-300"]
+
+
+def float_sweep(verdict, exe, tag):
+    """floats of every magnitude, as a scalar and as list elements: print -> parse -> same value to the printed precision
+    (the printer model writes six decimals; the printed text must be a numeral the parser accepts)"""
+    schema = ["schema S", "o float f 0 0 1.5", "o float fl 2 0 ~", "endschema"]
+    scripts, meta = [], {}
+    for n, t in enumerate(FLOATS):
+        lines = list(schema) + ["init c1 S 0", "setfloat c1 f 0 %s" % t, "addlist c1 fl float 2 %s 2.5" % t, "print c1",
+                                "init c2 S 0", "reparse c1 c2", "print c2", "free c2", "free c1"]
+        scripts.append(("fl%d" % n, "\n".join(lines)))
+        meta["fl%d" % n] = t
+    results = run_behaviours(exe, scripts, tag + "fl")
+    for bid, t in meta.items():
+        g = results.get(bid)
+        desc = "float %s" % t
+        verdict.cov["traces_validated_against_impl"] += 1
+        if g is None:
+            raise ModelError("no output")
+        if g["crash"]:
+            verdict.violation("rtfloat:%s:%s" % (g["crash"]["kind"], desc), "%s :: %s" % (desc, g["crash"]["detail"][:800]), {"float": t})
+            continue
+        pr = [l for l in g["lines"] if l["cmd"] == "print"]
+        rp = [l for l in g["lines"] if l["cmd"] == "reparse"][0]
+        want = "%f" % float(t)
+        probs = []
+        if ("f=%s" % want) not in pr[0]["text"].replace(" ", ""):
+            probs.append("printed %r, six decimals of the value are %s" % (pr[0]["text"][:80], want))
+        if rp["ret"] != 0:
+            probs.append("printed text rejected by the parser (%s): %r" % ([d["msg"] for d in rp["diag"]][:1], pr[0]["text"][:100]))
+        else:
+            c2 = rp["ctx"]["c2"]
+            got = ["%f" % float.fromhex(x) for x in c2["o"][0]["v"]] + ["%f" % float.fromhex(x) for x in c2["o"][1]["v"]]
+            if got != [want, want, "%f" % 2.5]:
+                probs.append("re-parsed values %r, printed %r" % (got, want))
+            if pr[1]["text"] != pr[0]["text"]:
+                probs.append("second print differs from the first")
+        if probs:
+            verdict.violation("rtfloat:%s" % desc, "%s :: %s" % (desc, "; ".join(probs)), {"float": t})
